@@ -27,7 +27,15 @@ def run_case(c):
     if c["mode"] == "repr":
         return run_repr(c)
     vals = {k: (tuple(v["tuple"]) if isinstance(v, dict) else v) for k, v in c["vals"].items()}
-    root = build(c["tree"], vals)
+    if c.get("embed"):
+        import implutil
+        A = implutil.adv(AnyNode)
+        top = A(lbl=1000, val="top")
+        A(parent=A(parent=top, lbl=1001, val="s"), lbl=1002, val="s")
+        root = build(c["tree"], vals, parent=A(parent=top, lbl=1003, val="mid"))
+        A(parent=top, lbl=1004, val="s")
+    else:
+        root = build(c["tree"], vals)
     st = c["style"]
     style = STYLES[st]() if isinstance(st, str) else AbstractStyle(*st)
     kw = {"style": style, "maxlevel": c["ml"]}
@@ -35,7 +43,7 @@ def run_case(c):
         kw["childiter"] = CITER[c["citer"]]
     if c.get("style_as_class") and isinstance(st, str):
         kw["style"] = STYLES[st]
-    before = snapshot(root)
+    before = snapshot(root.root)
     rt = RenderTree(root, **kw)
     rows = [[pre, fill, node.lbl] for pre, fill, node in rt]
     sel = c["selector"]
@@ -51,7 +59,7 @@ def run_case(c):
     else:
         text = str(rt)
         lines = {str(n.lbl): repr(n).splitlines() for _, _, n in rt}
-    if snapshot(root) != before:
+    if snapshot(root.root) != before:
         return {"crash": "rendering modified the tree"}
     return {"rows": rows, "text": text, "lines": lines}
 
